@@ -22,6 +22,9 @@ RULE = ("case = generated tree; 3 runs + 1 run per inserted reference (capped at
         "least one reference; distinct = case index.")
 PROBES = ["first_edit_faulted", "first_edit_faulted_exit0", "structured", "unstructured", "target_shape", "kv_shape", "multiline_shape", "no_kvp_directive", "ignore_directive",
           "lock_in_use", "probe_runs", "preexisting_refs"]
+PROBES_ZERO_EXPECTED = {"first_edit_faulted_exit0": "since fix e72da6f an edit run that met an I/O error on a scratch file exits non-zero, and C06 "
+                        "speaks about runs that exit 0; the sub-scenario stays so that a change which lets such a run exit 0 again is "
+                        "followed through check and second edit"}
 ASSUMPTIONS = ["fault-free runs; developer edits in the probe touch one number, the lock and one other file only"]
 DEADLINE = {"quick": 200, "thorough": 3000}
 M0 = 3000000
